@@ -140,7 +140,7 @@ def replay_numeric_scalar(op, pot_mod, pot_name, k):
     return {"violates": r["status"] == "violated", "detail": r["detail"]}
 
 
-def tested_maxwell(which, order):
+def tested_maxwell(which, order, k=1.2):
     """Maxwell: test functions SNC, trial RWG; tested field = (potential x n) . snc_f  ... see ob_numeric_maxwell."""
     import bempp_cl.api as api
     from bempp_cl.api.integration.triangle_gauss import rule
@@ -149,7 +149,6 @@ def tested_maxwell(which, order):
 
     warnings.simplefilter("ignore")
     g1, g2 = _two_grids()
-    k = 1.2
     par = Z.params(order, order)
     test = api.function_space(g1, "SNC", 0)
     trial = api.function_space(g2, "RWG", 0)
@@ -182,12 +181,25 @@ def ob_numeric_maxwell(which):
     sign = 1.0 if np.linalg.norm(A3 - B3) <= np.linalg.norm(A3 + B3) else -1.0
     e3 = Z.relerr(sign * B3, A3)
     if which == "magnetic_field":
-        if e3 > 1e-11:
-            return violated("Maxwell magnetic two-grid matrix differs from the tested magnetic potential by %.2e" % e3, witness={"which": which},
-                            replay={"callable": "checks.c07:replay_numeric_maxwell", "kwargs": {"which": which}, "confirmed": True}, signature="c07-numeric/maxwell_" + which)
-        return held("order 3: %.1e (sign %+d)" % (e3, sign))
+        worst = e3
+        for k in (1.2, 2.5 + 1.0j, 0.3 + 2.0j, 1.5j):
+            Ak, Bk = tested_maxwell(which, 3, k)
+            ek = Z.relerr(sign * Bk, Ak)
+            worst = max(worst, ek)
+            if ek > 1e-11:
+                return violated("Maxwell magnetic two-grid matrix differs from the tested magnetic potential by %.2e for k = %s" % (ek, k), witness={"which": which, "k": str(k)},
+                                replay={"callable": "checks.c07:replay_numeric_maxwell", "kwargs": {"which": which}, "confirmed": True}, signature="c07-numeric/maxwell_" + which)
+        return held("order 3, real / complex / purely imaginary k: %.1e (sign %+d)" % (worst, sign))
     A6, B6 = tested_maxwell(which, 6)
     e6 = Z.relerr(sign * B6, A6)
+    for k in (2.5 + 1.0j, 1.5j):
+        # complex and purely imaginary wavenumbers: the error must still be quadrature error (decreasing with the order)
+        Ak3, Bk3 = tested_maxwell(which, 3, k)
+        Ak6, Bk6 = tested_maxwell(which, 6, k)
+        ek3, ek6 = Z.relerr(sign * Bk3, Ak3), Z.relerr(sign * Bk6, Ak6)
+        if not (ek6 < 1e-4 and ek6 < ek3):
+            return violated("Maxwell electric two-grid matrix vs tested electric potential for k = %s: error %.2e at order 3, %.2e at order 6" % (k, ek3, ek6), witness={"which": which, "k": str(k)},
+                            replay={"callable": "checks.c07:replay_numeric_maxwell", "kwargs": {"which": which}, "confirmed": True}, signature="c07-numeric/maxwell_" + which)
     if not (e6 < 1e-5 and e6 < e3):
         return violated("Maxwell electric two-grid matrix vs tested electric potential: error %.2e at order 3, %.2e at order 6" % (e3, e6), witness={"which": which},
                         replay={"callable": "checks.c07:replay_numeric_maxwell", "kwargs": {"which": which}, "confirmed": True}, signature="c07-numeric/maxwell_" + which)
